@@ -35,7 +35,7 @@ import z3
 from . import relang
 from .relang import sre_parse, C, Unsupported
 from .values import IntStr
-from .strings import DecStr, Text
+from .strings import DecStr, Text, DigitField
 
 DIGITS = z3.Plus(z3.Range("0", "9"))
 ANY = z3.Star(z3.AllChar(relang.RS))
@@ -109,10 +109,52 @@ def _has_char(lang, c):
 _cache = {}
 
 
+def _group_width(sub):
+    try:
+        lo, hi = sub.getwidth()
+    except Exception:
+        return None
+    return lo if lo == hi else None
+
+
+def _items_w(tree, names):
+    """like _items, groups carry their fixed width (or None)"""
+    out = []
+    for (op, av) in tree:
+        if op is C.AT:
+            continue
+        if op is C.LITERAL:
+            out.append(("lit", chr(av)))
+        elif op is C.SUBPATTERN:
+            gid, _a, _b, sub = av
+            if gid is None:
+                out.extend(_items_w(sub, names))
+            else:
+                if gid not in names:
+                    raise Unsupported("unnamed capture group")
+                out.append(("group", names[gid], relang._seq(list(sub)), _group_width(sub)))
+        elif op is C.MAX_REPEAT and av[0] == 0 and av[1] == 1:
+            out.append(("opt", _items_w(av[2], names)))
+        else:
+            raise Unsupported("top-level regex item %s" % (op,))
+    return out
+
+
+def _shape_lang(p):
+    if p[0] == "s":
+        return _lit(p[1])
+    if p[0] == "i":
+        return DIGITS
+    if p[0] == "f":
+        return z3.Loop(z3.Range("0", "9"), p[1], p[1])
+    return z3.Concat(DIGITS, _lit(p[1]), DIGITS)
+
+
 def analyse(rx, shape):
-    """shape: tuple of pieces as ('s', text) | ('i',) | ('d', mark).  Returns
-    (verdict, groups, obligations): verdict 'match' (groups: name -> piece index
-    or None), 'nomatch' (no string of the form matches), or 'undecided'."""
+    """shape: tuple of pieces ('s', text) | ('i',) int spelling | ('f', width) digit
+    field | ('d', mark) decimal.  Returns (verdict, groups, obligations): verdict
+    'match' (groups: name -> ('piece', index) | ('str', text) | None), 'nomatch'
+    (no string of the form matches), or 'undecided'."""
     key = (rx.pattern, rx.flags, shape)
     if key in _cache:
         return _cache[key]
@@ -127,11 +169,17 @@ def analyse(rx, shape):
             raise Unsupported("pattern is not anchored at both ends")
         tree = sre_parse.parse(rx.pattern, rx.flags)
         names = {v: k for k, v in tree.state.groupdict.items()}
-        items = _items(list(tree), names)
-        langs = [_lit(p[1]) if p[0] == "s" else DIGITS if p[0] == "i" else
-                 z3.Concat(DIGITS, _lit(p[1]), DIGITS) for p in shape]
+        items = _items_w(list(tree), names)
+        langs = [_shape_lang(p) for p in shape]
         LF = _concat(langs)
         all_names = sorted(names.values())
+        # cells of the form: one per concrete character, one per symbolic piece
+        cells = []
+        for pi, p in enumerate(shape):
+            if p[0] == "s":
+                cells += [("c", ch, pi) for ch in p[1]]
+            else:
+                cells.append(("p", p, pi))
         verdict = "nomatch"
         for ai, alt in enumerate(_alternatives(items)):
             LA = _concat(_lit(x[1]) if x[0] == "lit" else x[2] for x in alt)
@@ -142,52 +190,77 @@ def analyse(rx, shape):
                 break
             if dj:
                 continue            # (1): no string of the form matches this alternative
-            # candidate alternative A: align with the form
-            seq = []                # merged: ('lit', text) / ('group', name, lang)
-            for x in alt:
-                if x[0] == "lit" and seq and seq[-1][0] == "lit":
-                    seq[-1] = ("lit", seq[-1][1] + x[1])
-                else:
-                    seq.append(x)
-            ok = len(seq) == len(shape)
-            groups = {}
-            if ok:
-                for i, (x, p) in enumerate(zip(seq, shape)):
-                    if x[0] == "lit":
-                        ok = ok and p[0] == "s" and p[1] == x[1]
+            # candidate alternative A: align its items with the cells of the form
+            k, ok, groups, checks = 0, True, {}, []
+            for xi, x in enumerate(alt):
+                if k >= len(cells):
+                    ok = False
+                    break
+                if x[0] == "lit":
+                    ok = cells[k][0] == "c" and cells[k][1] == x[1]
+                    k += 1
+                elif cells[k][0] == "p":
+                    # a group facing a symbolic piece
+                    p = cells[k][1]
+                    fixed_piece = p[1] if p[0] == "f" else None
+                    if x[3] is not None and fixed_piece != x[3]:
+                        ok = False
                     else:
-                        ok = ok and p[0] in ("i", "d")
-                        groups[x[1]] = i
+                        groups[x[1]] = ("piece", cells[k][2])
+                        nxt = alt[xi + 1] if xi + 1 < len(alt) else None
+                        checks.append((x, cells[k][2], nxt, k))
+                    k += 1
+                else:
+                    # a fixed-width group facing concrete characters
+                    w = x[3]
+                    if w is None or k + w > len(cells) or \
+                            any(c[0] != "c" for c in cells[k:k + w]):
+                        ok = False
+                    else:
+                        txt = "".join(c[1] for c in cells[k:k + w])
+                        inc, _w = relang.included(_lit(txt), x[2])
+                        ok = inc is True
+                        groups[x[1]] = ("str", txt)
+                        k += w
+                if not ok:
+                    break
+            ok = ok and k == len(cells)
             if not ob("alt[%d].aligns-with-form" % ai, ok,
                       "first alternative that some string of the form matches is %s; "
                       "form %s (e.g. %r)" % (
-                          [x[1] for x in seq], [p[1] if p[0] == "s" else "<%s>" % p[0]
+                          [x[1] for x in alt], [p[1] if p[0] == "s" else "<%s>" % (p,)
                                                 for p in shape], wit)):
                 verdict = "undecided"
                 break
             good = True
-            for i, (x, p) in enumerate(zip(seq, shape)):
-                if x[0] != "group":
-                    continue
-                inc, w = relang.included(langs[i], x[2])
+            for (x, pi, nxt, k) in checks:
+                inc, w = relang.included(langs[pi], x[2])
                 good = ob("alt[%d].group[%s].covers-piece" % (ai, x[1]), inc,
                           "a piece text the group does not accept: %r" % (w,)) and good
-                if i + 1 < len(seq):
-                    c = seq[i + 1][1][0]
-                    in_piece = _has_char(langs[i], c)
-                    in_group = _has_char(x[2], c)
-                    rest = _concat(langs[i + 2:]) if i + 2 < len(seq) else _lit("")
-                    tail_lit = seq[i + 1][1][1:]
-                    in_rest = _has_char(z3.Concat(_lit(tail_lit), rest) if tail_lit else rest, c)
-                    uniq = (in_piece is False) and (in_group is False or in_rest is False)
-                    good = ob("alt[%d].group[%s].split-unique" % (ai, x[1]),
-                              None if None in (in_piece, in_group, in_rest) and not uniq else uniq,
-                              "delimiter %r: occurs in the piece: %s, in the group's language: %s, "
-                              "later in the form: %s" % (c, in_piece, in_group, in_rest)) and good
+                if x[3] is not None:
+                    continue        # fixed width on both sides: the split is by position
+                if nxt is None:
+                    continue        # last item: the group takes the rest
+                if nxt[0] != "lit":
+                    good = ob("alt[%d].group[%s].split-unique" % (ai, x[1]), None,
+                              "a variable-width group followed by another group") and good
+                    continue
+                c = nxt[1]
+                in_piece = _has_char(langs[pi], c)
+                in_group = _has_char(x[2], c)
+                # rest of the form after the delimiter
+                rest_cells = cells[k + 2:]
+                rest = _concat(_lit(cc[1]) if cc[0] == "c" else _shape_lang(cc[1])
+                               for cc in rest_cells)
+                in_rest = _has_char(rest, c)
+                uniq = (in_piece is False) and (in_group is False or in_rest is False)
+                good = ob("alt[%d].group[%s].split-unique" % (ai, x[1]),
+                          None if None in (in_piece, in_group, in_rest) and not uniq else uniq,
+                          "delimiter %r: occurs in the piece: %s, in the group's language: %s, "
+                          "later in the form: %s" % (c, in_piece, in_group, in_rest)) and good
             if good:
                 verdict = "match"
-                res_groups = {n: groups.get(n) for n in all_names}
-                res = ("match", res_groups, obs)
+                res = ("match", {n: groups.get(n) for n in all_names}, obs)
             else:
                 verdict = "undecided"
             break
@@ -212,6 +285,8 @@ def shape_of(text):
             out.append(("i",))
         elif isinstance(p, DecStr):
             out.append(("d", p.mark))
+        elif isinstance(p, DigitField):
+            out.append(("f", p.width))
         else:
             raise Unsupported("piece %r" % (p,))
     return tuple(out)
